@@ -58,6 +58,7 @@ type Prog struct {
 
 	implCache  map[*types.Func][]*types.Func
 	cg         *CallGraph
+	entryHeld  map[string][]Held
 	wrappers   map[string]wrapperSum
 	fieldCache map[*types.Var][]types.Type
 	produce    map[string]map[string]bool
